@@ -908,8 +908,10 @@ class BlockBase(Base):
                 and hasattr(start_stmt, "get_name")
             ):
                 if end_stmt.get_name() is not None:
+                    start_stmt_name = start_stmt.get_name()
                     if (
-                        start_stmt.get_name().string.lower()
+                        start_stmt_name is None
+                        or start_stmt_name.string.lower()
                         != end_stmt.get_name().string.lower()
                     ):
                         end_stmt.item.reader.error(
